@@ -154,6 +154,22 @@ def curved(chk, rng, nshapes, npts):
         k = int(rng.integers(npts))
         if bool(np.asarray(ell.is_inside(P3[k]))[0]) != bool(ge[k]) or bool(np.asarray(circ.is_inside(P3[k]))[0]) != bool(gc[k]):
             chk.violation("batch-vs-single", dict(shape="circle/ellipse", a=a, b=b, center=c.tolist(), point=P3[k].tolist()))
+        # the same points in other containers / element types give the same answers: integer lattice points near the shape as an int64
+        # array, an int32 array, a list of int tuples and a float32 array, against the float64 array of the same values
+        L = np.array([[x, y, 0] for x in range(int(np.floor(c[0] - m)) - 1, int(np.ceil(c[0] + m)) + 2)
+                      for y in range(int(np.floor(c[1] - m)) - 1, int(np.ceil(c[1] + m)) + 2)][:60], dtype=np.int64)
+        cz = coxeter.shapes.Circle(a, np.array([c[0], c[1], 0.0])); ez = coxeter.shapes.Ellipse(a, b, np.array([c[0], c[1], 0.0]))
+        for nm_, shp_ in (("Circle", cz), ("Ellipse", ez)):
+            ref_ = np.asarray(shp_.is_inside(L.astype(np.float64)), bool)
+            for form_, arg_ in (("int64 array", L), ("int32 array", L.astype(np.int32)), ("list of int tuples", [tuple(int(v) for v in r) for r in L]),
+                                ("float32 array", L.astype(np.float32))):
+                st_, got_ = C.excname(lambda: np.asarray(shp_.is_inside(arg_), bool))
+                if st_ != "ok" or got_.shape != ref_.shape or not np.array_equal(got_, ref_):
+                    kbad = None if st_ != "ok" or got_.shape != ref_.shape else int(np.argmax(got_ != ref_))
+                    chk.violation("input-form:" + form_, dict(shape=nm_, a=a, b=b, center=[float(c[0]), float(c[1]), 0.0], error=st_,
+                                                              point=None if kbad is None else L[kbad].tolist(),
+                                                              as_float64=None if kbad is None else bool(ref_[kbad]), as_given=None if kbad is None else bool(got_[kbad])))
+                    break
         cases.append(C.encode_case("ellipse", sc=[c[0], c[1], a, a] + C.flat(pts)))
         cases.append(C.encode_case("ellipse", sc=[c[0], c[1], a, b] + C.flat(pts)))
         meta.append(dict(a=a, b=b, c=c, pts=pts, gc=gc, ge=ge))
